@@ -302,6 +302,22 @@ NextSim ==
       [] c = "expclose" -> IF pins = {} THEN Rollback ELSE \E t \in pins : ExportClose(t)
       [] OTHER          -> SaveVersion
 
+\* exhaustive enumeration of histories: every sequence of D calls from the empty store is one behaviour
+\* (Record = TRUE and no VIEW, so that each history is a state of its own); printed when complete.
+\* SaveChangeSet is left to the random generators: its candidates alone would multiply the count by 12 per call.
+NextExh ==
+  IF Len(hist) >= D + 1 THEN Finish
+  ELSE \/ \E k \in Keys, v \in Vals : Set(k, v)
+       \/ \E k \in Keys : Remove(k)
+       \/ SaveVersion
+       \/ Rollback
+       \/ \E f \in BOOLEAN : Reopen(f)
+       \/ \E t \in 0..(latest + 1) : LoadVersion(t)
+       \/ \E t \in 1..(latest + 1) : LoadVersionForOverwriting(t)
+       \/ \E n \in 0..(latest + 1) : DelOk(n) /\ DeleteVersionsTo(n)
+       \/ \E t \in Retained, f \in BOOLEAN : ImportSwitch(t, f)
+SpecExh == Init /\ [][NextExh]_vars
+
 SpecBounded == Init /\ [][NextBounded]_vars
 SpecSim     == Init /\ [][NextSim]_vars
 
